@@ -36,6 +36,7 @@ func execAll() {
 	}
 	impl := make([]string, len(lines))
 	orc := make([]string, len(lines))
+	ext := make([]bool, len(lines))
 	var items []item
 	for i, l := range lines {
 		orc[i] = "-"
@@ -44,6 +45,17 @@ func execAll() {
 			continue
 		}
 		toks := strings.Fields(l)
+		if len(toks) == 2 && toks[0] == "xprog" {
+			// extended program (source text, no model): the GnoVM against native Go only
+			src, err := kit.UnHex(toks[1])
+			if err != nil || len(src) == 0 {
+				impl[i] = "err:badop"
+				continue
+			}
+			ext[i] = true
+			items = append(items, item{line: i, unit: minigo.ExtUnit(string(src), len(items))})
+			continue
+		}
 		if len(toks) > 2 && toks[0] == "kf" && toks[2] == "prog" {
 			toks = toks[2:] // pinned known-finding witness: executed like any program
 		}
@@ -104,6 +116,12 @@ func execAll() {
 	for k, it := range items {
 		g, n := gnoRes[k], goRes[k]
 		impl[it.line] = g.Line()
+		if ext[it.line] {
+			impl[it.line] = "ext"
+			if os.Getenv("VERIF_TRACE") != "" && !(g.Status == n.Status && string(g.Output) == string(n.Output)) {
+				fmt.Fprintf(os.Stderr, "c04: line %d: ext gno=%s\n", it.line, g.Line())
+			}
+		}
 		switch {
 		case strings.HasPrefix(g.Status, "crash:"):
 			orc[it.line] = "VIOL:internal-fault " + gnoDetail[k]
